@@ -47,6 +47,17 @@ class FileSystemArtifactStore(SerializedArtifactStore):
 
         return path
 
+    @staticmethod
+    def _open(path: Path, mode: str, fmt: DataFormat) -> t.IO:
+        """
+        Pickle is a binary format, JSON is a text one
+        """
+
+        if fmt == DataFormat.PICKLE:
+            return path.open(f'{mode}b')  # noqa: ASYNC101
+
+        return path.open(mode, encoding='utf-8')  # noqa: ASYNC101
+
     def _get_glob(self, node_id: NodeId) -> t.List[Path]:
         return list(Path(self._ensure_dir()).glob(f'{node_id}.*'))
 
@@ -55,7 +66,7 @@ class FileSystemArtifactStore(SerializedArtifactStore):
         if len(self._get_glob(node_id)):
             raise ArtifactFileAlreadyExists(f'Artifact file for {node_id} already exists')
 
-        with Path(self._ensure_dir() / f'{node_id}.{fmt.value}').open('wb') as file:  # noqa: ASYNC101
+        with self._open(Path(self._ensure_dir() / f'{node_id}.{fmt.value}'), 'w', fmt) as file:
             serializer_factory.from_data_format(fmt).dump(data, file)
 
     @dont_use_for_prod
@@ -65,5 +76,5 @@ class FileSystemArtifactStore(SerializedArtifactStore):
         if not len(glob):
             raise ArtifactFileDoesNotExist(f'Artifact file for {node_id} does not exist')
 
-        with Path(glob[0]).open('rb') as file:  # noqa: ASYNC101
+        with self._open(Path(glob[0]), 'r', DataFormat(glob[0].suffix[1:])) as file:
             return serializer_factory.from_extension(glob[0].suffix[1:]).load(file)
